@@ -196,9 +196,11 @@ Fixpoint transpose_n (n : nat) (cols : list (list (list Z))) : list (list (list 
      v_crlf   = notes/C04.fix-1.diff (DelimitedBuffer._get_buffer_extractor: entry ends taken before the CR adjustment)
      v_samtab = notes/C04.fix-2.diff (SAMBuffer.join_fields: no separator before an empty 'extra' field)
    THE SWITCH is the single definition [current] below. *)
-Record variant := { v_crlf : bool; v_samtab : bool }.
-Definition pinned : variant := {| v_crlf := false; v_samtab := false |}.
-Definition repaired : variant := {| v_crlf := true; v_samtab := true |}.
+Record variant := { v_crlf : bool; v_samtab : bool; v_lazyqual : bool }.
+(* v_lazyqual = /repo ddae115 (dump_csv.get_column formats a numeric-encoded column held as a plain RaggedArray row by row):
+   a LAZY FASTQ table with a replaced quality column can be written; before, the writer refused it *)
+Definition pinned : variant := {| v_crlf := false; v_samtab := false; v_lazyqual := false |}.
+Definition repaired : variant := {| v_crlf := true; v_samtab := true; v_lazyqual := true |}.
 Definition current : variant := repaired.
 
 Definition drop_empty_last (flds : list (list Z)) : list (list Z) :=
@@ -311,6 +313,10 @@ Definition touch (f : fmt) (s : state) : state :=
     end
   else s.
 
+(* the rows of field texts of a table: what get_data_object() of a lazy table parses, or the parsed rows themselves *)
+Definition frows (f : fmt) (st : state) : list (list (list Z)) :=
+  match st with SLazy x sv => lazy_rows f x sv | SEager r => r end.
+
 Fixpoint run (f : fmt) (src : state) (p : prog) : option state :=
   match p with
   | PSrc => Some src
@@ -357,16 +363,20 @@ Fixpoint run (f : fmt) (src : state) (p : prog) : option state :=
           | None =>
               match all_some (map as_eager sts) with
               | Some es => Some (SEager (concat es))
-              | None => None                              (* mixing lazy and eager operands: not modelled *)
+              | None =>
+                  (* (since /repo 5965ca7) lazy and already materialised operands mixed: the lazy ones are parsed, the others
+                     taken as they are, the data objects concatenated.  Only the one-line buffers produce eager tables from
+                     lazily read files, so only they reach this branch. *)
+                  if is_oneline f then Some (SEager (concat (map (frows f) sts))) else None
               end
           end
       end
   end.
 
-(* get_buffer on a LAZY FASTQ table whose quality column was replaced: dump_csv.get_column's Encoding branch only handles an
-   EncodedRaggedArray; a quality column is a RaggedArray of ints (what table.quality returns, what as_encoded_array(..,
-   QualityEncoding) returns) -> np.asarray on it raises ValueError / TypeError: the write is refused.  (The eager path,
-   FastQBuffer.from_data, decodes the RaggedArray itself and works.)  The writer returns before get_buffer on an empty table. *)
+(* HISTORY (before /repo ddae115, variant flag v_lazyqual = false): get_buffer on a LAZY FASTQ table whose quality column was
+   replaced: dump_csv.get_column's Encoding branch only handled an EncodedRaggedArray; a quality column is a RaggedArray of ints
+   -> ValueError / TypeError: the write was refused.  Since ddae115 the branch tests `isinstance(x, RaggedArray)` and the
+   column is decoded row by row like on the eager path.  The writer returns before get_buffer on an empty table. *)
 Definition refused_lazy (f : fmt) (x : ext) (sv : setv) : bool :=
   match f, sv_get sv 2, x_es x with
   | FFastq, Some _, _ :: _ => true
@@ -383,7 +393,7 @@ Definition write (v : variant) (f : fmt) (s : state) : option (list Z) :=
                 | [] => Some []      (* the writer returns before get_buffer when the table is empty *)
                 | _ => None          (* supports_modified_write = False *)
                 end
-      | _ => if refused_lazy f x sv then None else Some (concat (map (join_row v f) (lazy_rows f x sv)))
+      | _ => if negb (v_lazyqual v) && refused_lazy f x sv then None else Some (concat (map (join_row v f) (lazy_rows f x sv)))
       end
   | SEager rows => Some (concat (map (join_row v f) rows))
   end.
